@@ -9,6 +9,7 @@
 From Coq Require Import List NArith Bool.
 From Conductor Require Import Lib.Str Model.Store Proofs.StoreSpec Proofs.StoreProofs Proofs.StoreInv
   Proofs.StoreSteps Proofs.StoreThms.
+From Conductor Require Import Gen.Generated Proofs.GenTie.
 Import ListNotations.
 Open Scope N_scope.
 
@@ -81,6 +82,12 @@ Theorem C08_no_touch : forall clock s l,
   forall r, In r (s_rows s) -> lookup (row_key r) (s_dirs (apply clock l s)) = lookup (row_key r) (s_dirs s).
 Proof. exact no_touch_reach. Qed.
 Print Assumptions C08_no_touch.
+
+(* Tie to the source, re-checked on every run: the timestamp rule of the model is the one TRANSLATED
+   from VersionIndex.generate_new_output_version in the working tree (Gen/Generated.v gen_new_version) *)
+Theorem C08_gen_version_is_the_sources : forall last now, gen_version last now = gen_new_version last now.
+Proof. exact gen_version_tie. Qed.
+Print Assumptions C08_gen_version_is_the_sources.
 
 (* non-vacuity: experiment 1 fails at second 1000; the clock then stalls; the next invocation is
    given 1001, a new directory, and records it; the failed directory is still there, unrecorded *)
